@@ -1291,10 +1291,12 @@ class FortranWriter(LanguageWriter):
                     # We still may need to enforce precedence
                     if (isinstance(parent, UnaryOperation) or
                             (isinstance(parent, BinaryOperation) and
-                             parent.children[1] == node)):
+                             (parent.children[1] == node or
+                              parent_fort_oper == "**"))):
                         # We need brackets to enforce precedence
                         # as a) a unary operator is performed
-                        # before a binary operator and b) floating
+                        # before a binary operator, b) exponentiation
+                        # associates to the right and c) floating
                         # point operations are not actually
                         # associative due to rounding errors.
                         return f"({lhs} {fort_oper} {rhs})"
